@@ -39,6 +39,8 @@ def c05(tier, seed):
 
 
 ENGINES = {
+    "chunks": ({"C10"}, "chunk regrouping: partition arithmetic on addresses/extents for every L, write-through, N = 0"),
+    "regroup": ({"C11"}, "flatten/unflatten: row-major identity order, same-storage by-reference views"),
     "layout": ({"C01"}, "size/align observers (full cross product in layoutx0..7), materialisation, drop tiling, round trips"),
     "views": ({"C02"}, "borrowed views: address/extent, write-through, slice reinterpretation outcome matrix, by-value conversions"),
     "heap": ({"C15", "C16"}, "alloc-feature operations under a recording allocator; panic and allocation-failure injection; small-stack children"),
@@ -177,7 +179,82 @@ def c01(tier, seed):
     ]
 
 
+CHUNKF = "u8,u32,(u8,u16),[u8;3],(),Tok,ZTok"
+
+
+def c10(tier, seed):
+    # the const-evaluator half of C10 is added by the constprobe machinery (see c10_const below)
+    if tier == "quick":
+        runs = [
+            Run("chunks", "debug", ["--flavours", CHUNKF], shards=4),
+            Run("chunks", "miri", ["--flavours", "u8,u32,(u8,u16),()", "--maxn", "8"], shards=16, label="chunks/miri(N<=8)"),
+        ]
+    else:
+        runs = [
+            Run("chunks", "debug", ["--flavours", CHUNKF], shards=8),
+            Run("chunks", "release", ["--flavours", CHUNKF], shards=8),
+            Run("chunks", "miri", ["--flavours", "u8,u32,(u8,u16),[u8;3],(),Tok", "--maxn", "17"], shards=32, label="chunks/miri(N<=17)"),
+            Run("chunks", "miri-sb", ["--flavours", "u8", "--maxn", "3"], shards=4, label="chunks/miri-stacked-borrows(advisory)", advisory=True),
+            Run("chunks", "asan", ["--flavours", "u8,u32,[u8;3],Tok"], shards=8),
+        ]
+    return runs
+
+
+REGF = "Tok,ZTok,u32,Tok24,(),String"
+
+
+def c11(tier, seed):
+    if tier == "quick":
+        return [
+            Run("regroup", "debug", ["--flavours", REGF], shards=2),
+            Run("regroup", "miri", ["--flavours", "HeapTok,ZTok,u32", "--maxn", "9", "--part", "small"], shards=16, label="regroup/miri(NM<=9)"),
+        ]
+    return [
+        Run("regroup", "debug", ["--flavours", REGF], shards=4),
+        Run("regroup", "release", ["--flavours", REGF], shards=4),
+        Run("regroup", "miri", ["--flavours", "HeapTok,ZTok,u32,Tok24,()", "--maxn", "36", "--part", "small"], shards=32, label="regroup/miri(NM<=36)"),
+        Run("regroup", "miri", ["--flavours", "u32,ZTok", "--maxn", "65", "--part", "big"], shards=4, label="regroup/miri(big<=65)"),
+        Run("regroup", "asan", ["--flavours", "HeapTok,String,u32"], shards=4),
+    ]
+
+
 SPECS = {
+    "C10": dict(
+        engine="chunks",
+        technique="address/extent monitor on both parts for every slice length L in 0..=4N+3 + identity read-back + write-through with guard elements; Miri for out-of-bounds views; const-evaluator half via generated const items",
+        level="exploration",
+        level_text=("For N in {0,1,2,3,7,8,16,17,32} every L in 0..=4N+3 (boundary L for 100 and 256; up to 1024 in thorough) and seven element "
+                    "flavours (sizes 0,1,3,4,8; padded tuple), shared and mutable forms: chunk count = floor(L/N), remainder length = L mod N, both "
+                    "parts start where arithmetic says, sizes add up to the source, identities read through the parts equal the source order, "
+                    "writes through the mutable parts show in the source and nowhere else (guard elements), slice_from_chunks is the inverse, "
+                    "from_chunks/into_chunks keep address and count, N = 0 gives two empties or panics. Miri re-runs N<=8 (a part reaching past "
+                    "the end is an out-of-bounds retag even if never read)."),
+        level_note="Trusted: pointer arithmetic in harness/src/bin/chunks.rs, Miri. The const-evaluation half is exercised by the C18 generated const items (same functions, exact-size backing arrays).",
+        runs=c10,
+        min_cases=2000,
+        must_count=["ledger.drops"],
+        exhaustive={"quick": True, "thorough": True},
+        rule="one case = (function family, flavour, N, L) — all L in 0..=4N+3 for the small N; non-trivial = L > 0",
+        explanation="partition arithmetic checked on addresses, counts and byte extents; identities for order; guards for 'nothing beyond the end'",
+        assumptions=["N from the lattice {0,1,2,3,7,8,16,17,32,100,256} (+255, 1024 in thorough)"],
+    ),
+    "C11": dict(
+        engine="regroup",
+        technique="reference-model monitor (row-major index arithmetic on identities) + address/extent checks on by-reference regrouped views + write-through; ledger for the owned transmutes; Miri/ASan",
+        level="exploration",
+        level_text=("All (N, M) in 0..=6 x 0..=6 (49 flatten shapes, 42 unflatten shapes with N>=1 dividing NM) plus boundary pairs (1x1024, 1024x1, "
+                    "16x64, 3x100, ...), owned / & / &mut forms, seven element flavours: flattened[i*N+j] must be inner[i][j] by identity, unflatten "
+                    "the exact inverse, by-reference results at the same address with the same byte extent, writes through the regrouped &mut "
+                    "visible in the original; the ledger confirms the owned forms neither lose nor duplicate an element."),
+        level_note="Trusted: index arithmetic in harness/src/bin/regroup.rs; ledger; Miri (a by-reference transmute to a longer type is UB at the retag).",
+        runs=c11,
+        min_cases=1500,
+        must_count=["ledger.drops", "ledger.zst_drops"],
+        exhaustive={"quick": True, "thorough": True},
+        rule="one case = (operation form, flavour, N, M); all shapes in the tables; non-trivial = N*M > 0",
+        explanation="identity order + address + extent; ledger for ownership through const_transmute",
+        assumptions=["unflatten only over evenly divisible lengths (its documented domain)"],
+    ),
     "C01": dict(
         engine="layout",
         technique="compiler-computed size/align observers over the full (164 layouts x every N in 0..=1024) cross product and all larger typenum-named lengths; materialised arrays with address/extent checks; drop-glue tiling via the ledger; Miri round trips",
